@@ -78,7 +78,7 @@ def contCharge (b : Batt K) (pilot V T ν : K) : Except Err (Batt K × K) :=
     let md := b.maxPower / b.capacity / ((60 : Nat) / T)
     let s := soc b
     let curr0 := contSoc s b.ts pd0 md
-    let curr := if 0 < b.noiseLevel then curr0 - absK (ν * (T / (60 : Nat)) / b.capacity) else curr0
+    let curr := if 0 < b.noiseLevel then pyMax (curr0 - absK (ν * (T / (60 : Nat)) / b.capacity)) s else curr0
     let dsoc := curr - s
     let pw := dsoc * b.capacity / (T / (60 : Nat))
     .ok ({ b with charge := curr * b.capacity, power := pw }, pw * (1000 : Nat) / V)
